@@ -114,7 +114,7 @@ def rand_exec(rng, nops):
             for _ in range(rng.randint(1, 5)):
                 k = rng.random()
                 cc = rng.randint(1, nc)
-                steps.append("T" if k < 0.45 else ("I%d" % cc if k < 0.65 else ("O%d%s" % (cc, c13.rand_outcome(rng)) if k < 0.85 else ("A" if k < 0.93 else "B%d%s" % (cc, c13.rand_outcome(rng))))))
+                steps.append("S" if k < 0.04 else "T" if k < 0.45 else ("I%d" % cc if k < 0.65 else ("O%d%s" % (cc, c13.rand_outcome(rng)) if k < 0.85 else ("A" if k < 0.93 else "B%d%s" % (cc, c13.rand_outcome(rng))))))
             for _ in range(rng.choice([0, 0, 1, 2, 3])):
                 ops.append("oncb " + ";".join(rand_action(rng, nc, nt) for _ in range(rng.choice([1, 1, 2]))))
             ops.append("run " + " ".join(steps))
